@@ -89,7 +89,28 @@ EXTRA = {
  "C20": ("; static call closure from the fence evaluation entry", "; no function reachable from the fence evaluation reads a stored *collection.Collection (the collection a fence searches is looked up in the keyspace when the fence is evaluated)", None),
 }
 EXTRA5 = {'C02': '; the index search is conditioned only on the query rectangle; every return of the quantiser hands back the rounded-down lower and the rounded-up upper corner', 'C03': '; every socket write of buffered replies is preceded by the dirty test or a flush under the lock, and the log buffer and file are written only under the exclusive lock', 'C05': '; field lists are persistent (no function of internal/field writes into memory of an existing list); a variable whose address the live-fence queue retains is not reused across loop iterations', 'C07': "; the repository's own lock implementations acquire only by a guarded compare-and-swap (spin lock) or reach only the matching sync.RWMutex method (wrapper)", 'C08': '; every write of the log buffer and of the log file happens under the exclusive lock, also in the background flusher and through a local that holds the handle', 'C09': '; the live log receives a command whether or not a rewrite is running', 'C10': '; no statement stores through the shared retention default (a package-level pointer) or a local alias of it', 'C12': '; Value.Equals is the equality of the order (derived from Less)', 'C13': '; every return of the quantiser hands back the rounded-down lower and the rounded-up upper corner, so an index box contains the box it stands for', 'C14': '; a variable whose address writeAOF retains for the live-fence queue is declared in the iteration that fills it', 'C15': "; the caught-up state the read gate consults is set only where the follower's position was compared with the leader's log size", 'C16': '; a message is handed on by the pipeline reader only where it is known to have an argument', 'C17': '; an object kept for a search reply has its field names recorded on every path (JSON and RESP print the same fields)', 'C19': '; the index search is never skipped on derived state; the previous object is removed from every index before the new one is entered (anchored on Collection.Set/Delete by role)', 'C20': '; the per-candidate callback of the roaming neighbour search never ends the search; positional accessors on the previous object are dominated by a spatial test'}
+EXTRA6 = {
+ 'C01': '; a write handler builds its positive acknowledgement (OK, 1) only on paths on which it stored something (a JSET of an unchanged text still replaces the object)',
+ 'C03': '; no write of the live log file is reachable from a running script (an atomic script reaches the file as a whole); every byte reaches the log file through the one buffer',
+ 'C05': '; an event the fence has classified is rendered whatever the long-lived scan writer of the fence accumulated (the premise of the decision table)',
+ 'C06': '; HEALTHZ and the caught_up member of SERVER test the live caught-up bit, not the sticky one the command gate uses',
+ 'C07': '; every write to the live log file hands over the log buffer itself, so the file order is the append order',
+ 'C08': '; the dirty flag is not cleared between its setting and the append of the command to the buffer',
+ 'C09': '; field values are rewritten in their JSON form; every object the rewrite visits is emitted; every state-dependent sentinel refusal of a write handler is tolerated by the loader (one known finding: RENAME after SETHOOK/SETCHAN)',
+ 'C10': '; a subscription is acknowledged only after it is registered in the hub',
+ 'C11': '; a request cursor is handed to one iteration only (no second iterator, no loop, skips the offset again)',
+ 'C12': '; the glob matcher tries every offset after a star unless the head of the next chunk is a literal byte; Equals is decided as a table over the order atom',
+ 'C13': '; every argument of an inverse trigonometric function in the traversal distance is bounded (no NaN distance)',
+ 'C14': '; the rewrite of the log emits every object it visits, also one that is about to expire',
+ 'C15': '; the protected-mode peer test is evaluated in its parsed form too: a peer without loop-back evidence is never classified as local',
+ 'C16': '; nothing a command can change (output format, strict RESP) is fixed once per read',
+ 'C17': '; the websocket length field carries a length only below 126; every argument of an inverse trigonometric function that feeds a distance is bounded',
+ 'C18': '; no write of the live log file is reachable from a running script',
+}
 for _pid, _d in EXTRA5.items():
+    _t0, _d0, _n0 = EXTRA.get(_pid, ('', '', None))
+    EXTRA[_pid] = (_t0, _d0 + _d, _n0)
+for _pid, _d in EXTRA6.items():
     _t0, _d0, _n0 = EXTRA.get(_pid, ('', '', None))
     EXTRA[_pid] = (_t0, _d0 + _d, _n0)
 for _pid, (_t, _d, _n) in EXTRA.items():
